@@ -1,5 +1,7 @@
 """C17 — dataset equality means same multiset of rankings, nothing else."""
 import copy
+import os
+import json
 from common import *
 import gen
 from algos import give_a_past, random_past
@@ -126,6 +128,11 @@ class Eq(Suite):
             B = [h1 + t2, h2 + t1] + [[list(b) for b in r] for r in extra]
             rng.shuffle(B)
             cases.append({"A": A, "B": B, "kind": "exchanged_tails"})
+        # datasets that crossed a process boundary (pickled by an interpreter with another hash seed)
+        for c in [dict(c) for c in rng.sample([c for c in cases if c["kind"] in ("same", "permuted", "reinserted", "moved", "resplit")], 12 if tier == "quick" else 100)]:
+            c["pickled"] = True
+            c["kind"] = c["kind"] + "+pickled"
+            cases.append(c)
         # datasets with a past: already compared (and read in every way), then modified in place; what is judged is == on the datasets
         # as they are afterwards (their rankings are observed after the modification)
         for c in [dict(c) for c in rng.sample(cases, 80 if tier == "quick" else 800)]:
@@ -139,6 +146,17 @@ class Eq(Suite):
     def run(self, case):
         a = build(case["A"], "left")
         b = build(case["B"], "right name")
+        if case.get("pickled"):
+            # the left dataset comes from ANOTHER interpreter process (other hash seed), through pickle: whatever its objects memorised
+            # about hashes there does not hold here
+            import pickle, subprocess, sys
+            code = ("import pickle, sys, json\nfrom corankco.dataset import Dataset\n"
+                    "D = json.loads(sys.argv[1])\n"
+                    "d = Dataset.from_raw_list([[set(b) for b in r] for r in D], name='left')\n"
+                    "sys.stdout.buffer.write(pickle.dumps(d))\n")
+            env = dict(os.environ, PYTHONHASHSEED=str((int(os.environ.get("PYTHONHASHSEED", "1")) + 12345) % 4000000000 + 1))
+            p = subprocess.run([sys.executable, "-c", code, json.dumps(case["A"])], env=env, capture_output=True, timeout=120)
+            a = pickle.loads(p.stdout)
         if case.get("pastA") or case.get("pastB"):
             a == b, b == a          # compared once before anything changes
         if case.get("pastA"):
